@@ -475,6 +475,34 @@ pub fn c11(cx: &mut Ctx) {
             }
         }
     }
+    // (5) a method without a body of its own, made to carry one: Expect applies all the same
+    for m in ["GET", "DELETE", "OPTIONS"] {
+        for reqv in ["HTTP/1.1", "HTTP/1.0"] {
+            if reqv == "HTTP/1.0" && m != "GET" { continue; }
+            for path in 0..3 {
+                cx.case("despite");
+                cx.rec.new_flow(&format!("{} {} http://a.test/p 1 expect {}", m, reqv, hx(b"100-continue")));
+                cx.op("despite");
+                cx.op("proceed"); cx.op("write 4096"); cx.op("proceed");
+                let stream: Vec<u8> = match path {
+                    0 => b"HTTP/1.1 100 Continue\r\n\r\nHTTP/1.1 200 OK\r\nContent-Length: 2\r\n\r\nhi".to_vec(),
+                    1 => b"HTTP/1.1 403 Forbidden\r\nContent-Length: 0\r\n\r\n".to_vec(),
+                    _ => b"HTTP/1.1 100 Continue\r\n\r\nHTTP/1.1 200 OK\r\nContent-Length: 2\r\n\r\nhi".to_vec(),
+                };
+                let mut soff = 0;
+                if cx.rec.state() == "await100" {
+                    cx.op("keep100");
+                    if path < 2 {
+                        let res = cx.op(&format!("read100 {}", hx(&stream)));
+                        if let Some(n) = res.strip_prefix("count ") { soff = n.parse().unwrap_or(0); }
+                        cx.op("keep100");
+                    }
+                    cx.op("proceed");
+                }
+                finish_exchange(cx, &stream, soff, 0);
+            }
+        }
+    }
     // (4) 100 with header fields (treated as a refusal while awaiting, an error afterwards)
     for _ in 0..1 {
         cx.case("h100");
